@@ -7,7 +7,6 @@ import (
 	"encoding/hex"
 	"errors"
 	"fmt"
-	"os"
 	"strings"
 	"sync"
 	"testing"
@@ -109,23 +108,25 @@ func rowFix(t testing.TB) *rowFixture {
 
 // childIndexRow: fresh engine, the raw row (value from the environment) under
 // the key of id=2, then wait for the indexer and read the table both ways.
-func childIndexRow() {
-	val, err := hex.DecodeString(os.Getenv("C16_ROWVAL"))
+// The raw value is committed under the key of the existing row id=1.
+func childIndexRow(valHex string) {
+	val, err := hex.DecodeString(valHex)
 	if err != nil {
-		fmt.Printf("C16CHILD bad input\n")
-		os.Exit(3)
+		answer(false, "bad input", "")
+		return
 	}
 	eng, err := rowEngine()
 	if err != nil {
-		fmt.Printf("C16CHILD fixture: %v\n", err)
-		os.Exit(3)
+		answer(false, "fixture: "+err.Error(), "")
+		return
 	}
+	defer eng.close()
 	key, _, err := findRow(eng.st)
 	if err != nil {
-		fmt.Printf("C16CHILD fixture: %v\n", err)
-		os.Exit(3)
+		answer(false, "fixture: "+err.Error(), "")
+		return
 	}
-	key[len(key)-1] = 2 // primary key 2 (INTEGER keys end with the big-endian value)
+	// the raw value replaces row id=1 (an update: the indexer finds the previous version of the source key)
 	ctx := context.Background()
 	var firstErr error
 	r := runStateful(func() {
@@ -174,7 +175,7 @@ func childIndexRow() {
 	if firstErr != nil {
 		es = firstErr.Error()
 	}
-	fmt.Printf("\nC16CHILD opened=true\nC16ERR %s\nC16VERDICT %s\nC16END\n", oneLine(es), oneLine(r.verdict("raw row + indexing + SELECT", len(val))))
+	answer(true, es, r.verdict("raw row + indexing + SELECT", len(val)))
 }
 
 // rowKnown mirrors the two decoders with explicit bounds. Columns of t: 1 id INTEGER, 2 name VARCHAR, 3 n INTEGER.
@@ -249,7 +250,7 @@ func rowKnown(v []byte) string {
 func rowProbes() []vk.Probe {
 	mk := func(id string, val []byte, what string) vk.Probe {
 		return vk.Probe{ID: id, Present: func() (bool, string) {
-			cr := runChild("indexrow", map[string]string{"C16_ROWVAL": hex.EncodeToString(val)})
+			cr := runChild("indexrow", map[string]string{"rowval": hex.EncodeToString(val)})
 			if cr.died {
 				return true, what + " KILLS THE PROCESS: " + cr.crash
 			}
@@ -284,7 +285,7 @@ func rowValue(count int, cols ...col) []byte {
 // TestRawRowIndexingAndRead: mutated row values through the index mapper (background goroutine) and the row reader; child process per case.
 func TestRawRowIndexingAndRead(t *testing.T) {
 	fx := rowFix(t)
-	vk.Check(t, 64, 2400, func(rt *rapid.T, c *vk.Case) {
+	vk.Check(t, 400, 12000, func(rt *rapid.T, c *vk.Case) {
 		l := &layout{b: fx.value}
 		l.add("count", 0, 4, kCount)
 		i := 4
@@ -303,7 +304,7 @@ func TestRawRowIndexingAndRead(t *testing.T) {
 		if excludedKnown(c, known, known != "") {
 			return
 		}
-		cr := runChild("indexrow", map[string]string{"C16_ROWVAL": hex.EncodeToString(val)})
+		cr := runChild("indexrow", map[string]string{"rowval": hex.EncodeToString(val)})
 		dump := map[string]any{"rowValue": hex.EncodeToString(val), "mutation": desc}
 		if cr.died {
 			c.Failf(rt, dump, "a raw row value (%s) KILLED THE PROCESS: %s", desc, cr.crash)
